@@ -532,7 +532,10 @@ def part_b(ctx, tab):
                                "last_case": cases[-1]["hdr"] if cases else None, "tail": out[-1500:]}, no_input=True)
             for c in cases:
                 stats["cases"] += 1
-                ref = c["modes"].get("RR", [])
+                # reference stream: the typed Rust API when the case has one (it does not go through the
+                # *_custom_payload functions that only the bindings use), else the runtime type-detail Rust API
+                refmode = "TT" if "TT" in c["modes"] else "RR"
+                ref = c["modes"].get(refmode, [])
                 for op, o, _ in ref:
                     opdist[kind + ":" + op.split()[0]] += 1
                     if o.startswith("E:"):
@@ -541,11 +544,12 @@ def part_b(ctx, tab):
                         ctx.violation("Rust error has no row in the generated table: %s" % o, {"case": c["hdr"], "obs": o}, no_input=False, key="ffi-unmapped:" + o)
                 if not samples and len(ref) > 12:
                     samples.append({"case": c["hdr"], "RR": ["%s = %s" % (a, b) for a, b, _ in ref[:14]]})
-                for m, ls in c["modes"].items():
+                # modes that involve the C ABI are compared (and reported) first
+                for m, ls in sorted(c["modes"].items(), key=lambda kv: (0 if kv[0] == "CC" else 1 if "C" in kv[0] else 2, kv[0])):
                     stats["mode_runs"] += 1
                     stats["ops"] += len(ls)
                     modes_seen[kind + ":" + m] += 1
-                    if m == "RR":
+                    if m == refmode:
                         continue
                     a = [(x, y) for x, y, _ in ref]
                     b = [(x, y) for x, y, _ in ls]
@@ -560,10 +564,11 @@ def part_b(ctx, tab):
                         idx = next((i for i, (p, q) in enumerate(zip(a, b)) if p != q), min(len(a), len(b)))
                         if reported < 5:
                             reported += 1
-                            ctx.violation("C API and Rust API disagree (%s, mode %s vs RR) at op %d: RR %s  /  %s %s" % (
-                                kind, m, idx, ref[idx] if idx < len(ref) else "<end>", m, ls[idx] if idx < len(ls) else "<end>"),
-                                {"case": c["hdr"], "mode": m, "first_diverging_op": idx,
-                                 "stream_RR": ["%s = %s" % (x, z) for x, _, z in ref], "stream_" + m: ["%s = %s" % (x, z) for x, _, z in ls],
+                            ctx.violation("C API and Rust API disagree (%s, mode %s vs %s) at op %d: %s %s  /  %s %s" % (
+                                kind, m, refmode, idx, refmode, ref[idx] if idx < len(ref) else "<end>", m, ls[idx] if idx < len(ls) else "<end>"),
+                                {"case": c["hdr"], "mode": m, "reference_mode": refmode, "first_diverging_op": idx,
+                                 "modes": "first letter = publisher/notifier/client side, second = subscriber/listener/server side; R = Rust runtime type-detail API, T = typed Rust API, C = C ABI",
+                                 "stream_" + refmode: ["%s = %s" % (x, z) for x, _, z in ref], "stream_" + m: ["%s = %s" % (x, z) for x, _, z in ls],
                                  "how_to_rerun": " ".join(argv) + "   # case number is the first field after `C`"})
                 for m, f in c["F"].items():
                     if f != "nodes_left=0 recreate=ok":
@@ -594,8 +599,13 @@ def part_b(ctx, tab):
                    "event: notify/notify_with_custom_event_id/try_wait, 1-2 notifiers, 1-2 listeners, extra ports beyond the limits, 6 kinds of deviating open/create; "
                    "request-response (runtime type details for request and response independently, fixed and dynamic): client loan/write/send/send_copy, server receive/has_requests, "
                    "active request loan/write/send/send_copy/is_connected/drop, pending response receive/has_response/is_connected/drop, response release, 1 client + 1 server; "
+                   "half of the request-response cases are REQUEST CYCLES with small limits (max_active_requests_per_client 1, response buffer 2..4, overflow off and on): at least twice as many "
+                   "requests as the client has response channel ids, 1..3 responses per request, the client receives 0..n+1 of them and drops the pending response, so stale responses stay queued "
+                   "while channel ids are recycled; for slice layouts of u8/u32/u64 the typed Rust API (request_response::<[T],[U]>, modes TT/CT/TC) runs too and is the reference stream "
+                   "(the runtime type-detail Rust API shares its receive path with the binding); "
+                   "publish-subscribe and event: ports dropped in mid-program and re-created while loans, borrowed samples, queued samples and pending notifications of the old port are still around; "
                    "handle release: port counts after every drop, node listing + re-create of the service after all drops",
-        "not_covered": "blackboard, waitset, typed Rust API for request-response and user headers in request-response, several clients/servers, fire-and-forget, attributes, blocking/timed waits, deadlines, resizable (dynamic allocation strategy) segments, "
+        "not_covered": "blackboard, waitset, fixed-size typed Rust API for request-response, user headers in request-response, several clients/servers, fire-and-forget, attributes, blocking/timed waits, deadlines, resizable (dynamic allocation strategy) segments, "
                        "cross-process participants (both sides live in one process), C++/Python bindings",
         "samples": samples,
     }
